@@ -587,7 +587,27 @@ func hcSuite(r *Run, prop string) {
 		r.Op(sc.line(), "observed")
 		r.TracesOnImpl++
 		r.Count("transport:http-client")
+		nv := len(r.Violations)
 		nt := hcOracle(r, prop, sc)
+		for _, v := range r.Violations[nv:] {
+			// shrink (the engine is scheduled by the runtime: a candidate counts as failing if one of three runs fails)
+			sig := v.Signature
+			var full []string
+			for _, st := range sc.steps {
+				full = append(full, st.op)
+			}
+			min := shrinkOps(full, func(c []string) bool {
+				for k := 0; k < 3; k++ {
+					pr := newProbe(r)
+					hcOracle(pr, prop, runHCScript(rng.Fork("shrink"), respStream, 0, c))
+					if hasSig(pr.Violations, sig) {
+						return true
+					}
+				}
+				return false
+			})
+			r.attachMinimal(sig, map[string]interface{}{"respstream": respStream, "ops": strings.Join(min, ";")})
+		}
 		r.Eval(sc.line(), nt)
 		if nt && r.Dist["hc-samples"] < 2 {
 			r.Dist["hc-samples"]++
